@@ -45,13 +45,13 @@ def assortativity_bin(CIJ, flag=0):
     '''
     if flag == 0:  # undirected version
         deg = degrees_und(CIJ)
-        i, j = np.where(np.triu(CIJ, 1) > 0)
+        i, j = np.where(np.triu(CIJ, 1) != 0)  # weights are ignored, negative ones included
         K = len(i)
         degi = deg[i]
         degj = deg[j]
     else:  # directed version
         id, od, deg = degrees_dir(CIJ)
-        i, j = np.where(CIJ > 0)
+        i, j = np.where(CIJ != 0)  # weights are ignored, negative ones included
         K = len(i)
 
         if flag == 1:
